@@ -1,7 +1,8 @@
 """C18 — state-machine engine: correspondence (Model.SM / Model.SMSched driver vs the real State/Transition/StateMachine classes)
 and direct oracle (rejected => nothing changed; allowed => destination; active = current + ancestors; events exactly once).
 
-Finding classes (stable strings): "c18-nested-hier" (handler-requested transition in a hierarchical machine leaves stale flags),
+Finding classes (stable strings): "c18-handler-raises" (a handler raises while a hierarchical machine is half-way through a
+transition: the rest of the enter/leave chain is skipped), "c18-nested-hier" (handler-requested transition in a hierarchical machine leaves stale flags),
 "c18-race" (two concurrent _perform_transition calls: result is not that of any sequential order).  Anything else is a violation,
 in particular "c18-shipped-definition": a shipped machine behaves differently from its reference definition (Spec.Machines).
 The driver domains used are `sm` (engine) and `gemctrl bare` (public methods of the shipped control machine).
@@ -68,7 +69,7 @@ def gen_machine(rng: hlib.Rng, flat=None):
         for _ in range(rng.range(1, 3)):
             kind = rng.choice("eeeeccl") if mode < 9 else rng.choice("ecl")
             once = rng.chance(1, 3) if kind != "l" else rng.chance(4, 5)
-            reqs = [rng.choice(names) if rng.chance(9, 10) else "zz" for _ in range(1 if rng.chance(3, 4) else 2)]
+            reqs = [rng.choice(names) if rng.chance(8, 10) else rng.choice(["zz", "!"]) for _ in range(1 if rng.chance(3, 4) else 2)]
             if kind == "c":
                 handlers.append(("c", rng.choice(names), once, reqs))
             else:
@@ -125,6 +126,9 @@ class Built:
         self.log: list[str] = []
         self.nested = 0  # handler-requested _perform_transition calls that were started
         self.nested_kinds: set[str] = set()
+        self.nested_done = 0  # ... that returned normally
+        self.done_kinds: set[str] = set()
+        self.booms = 0  # plain exceptions raised by handlers
         sm = StateMachine()
         act = set(chain(parents, d["init"]))
         self.states = []
@@ -152,9 +156,14 @@ class Built:
                 if once and log.count(tok) != 1:
                     return
                 for r in reqs:
+                    if r == "!":
+                        self.booms += 1
+                        raise HandlerBoom()
                     self.nested += 1
                     self.nested_kinds.add(kind)
                     sm._perform_transition(r)
+                    self.nested_done += 1
+                    self.done_kinds.add(kind)
             if kind == "c":
                 sm.transition(key).events.called.register(cb)
             elif kind == "e":
@@ -172,7 +181,18 @@ class Built:
         return f"cur={self.cur()} active={''.join('1' if b else '0' for b in self.flags())} log={','.join(self.log)}"
 
 
+class HandlerBoom(Exception):
+    """a plain exception raised by a handler (handler request `!`); the engine has no except clause, so for the model this is a
+    handler requesting a transition that does not exist: same propagation through Event.__call__, fire, enter/leave, _perform_transition"""
+
+
+RAISES = (WrongSourceStateError, UnknownTransitionError, HandlerBoom)
+PENDING = []   # violations whose class depends on what the model of the unchanged code says: (violation dict, driver line)
+
+
 def errname(exc):
+    if isinstance(exc, HandlerBoom):
+        return "UnknownTransition"
     if isinstance(exc, WrongSourceStateError):
         return "WrongSource"
     if isinstance(exc, UnknownTransitionError):
@@ -196,12 +216,13 @@ def run_case(res: hlib.Result, d, oracle=True):
     hier = any(p is not None for p in parents)
     results = []
     for i, r in enumerate(d["reqs"]):
-        cur0, flags0, n0, nested0 = b.cur(), b.flags(), len(b.log), b.nested
+        cur0, flags0, n0, nested0, done0, booms0 = b.cur(), b.flags(), len(b.log), b.nested, b.nested_done, b.booms
         b.nested_kinds.clear()
+        b.done_kinds.clear()
         try:
             b.sm._perform_transition(r)
             out = "ok"
-        except (WrongSourceStateError, UnknownTransitionError, RecursionError) as exc:
+        except RAISES + (RecursionError,) as exc:
             out = errname(exc)
         if out == "Diverges":
             res.bump("outcome", "diverges")
@@ -228,13 +249,22 @@ def run_case(res: hlib.Result, d, oracle=True):
             res.bump("oracle", "rejected-noop")
             continue
         if "l" in b.nested_kinds:
-            res.bump("oracle", "skipped: a leave handler requested a transition (not covered by the property)")
+            res.bump("oracle", "skipped: a leave handler requested a transition (not covered by the property; a leave handler that just raises is)")
             continue
-        if out != "ok" and nested == 0:
+        nested_done, booms = b.nested_done - done0, b.booms - booms0
+        if out != "ok" and nested == 0 and booms == 0:
             res.violate("c18-engine", "an allowed request raised", case, "ok", out)
             continue
         if out != "ok":
-            res.bump("oracle", "skipped: a nested request failed inside a handler (exception propagates through the outer transition)")
+            # an exception left a handler (a plain one, or a nested request that was refused) and propagated through the transition:
+            # the property's clause that still applies: the states reporting active are exactly the current state and its ancestors
+            res.bump("oracle", "allowed, a handler raised: " + ("hierarchical" if hier else "flat"))
+            if inv0 and flags1 != [x in chain(parents, cur1) for x in range(len(parents))]:
+                v = {"class": "c18-nested-hier" if (hier and nested_done > 0) else ("c18-handler-raises" if hier else "c18-engine"),
+                     "what": "a handler raised during the transition; afterwards the active states are not exactly the current state and its ancestors",
+                     "case": case, "expected": {"active": [x in chain(parents, cur1) for x in range(len(parents))]},
+                     "actual": {"cur": cur1, "active": flags1, "events": delta, "raised": out}}
+                PENDING.append((v, f"sm run {fmt_machine(d)} R=" + ",".join(d["reqs"][:i + 1]), parents))
             continue
         if not inv0:
             res.bump("oracle", "skipped: flags were already inconsistent before this request (reported at the request that caused it)")
@@ -272,6 +302,33 @@ def run_case(res: hlib.Result, d, oracle=True):
             res.violate(klass, bad, case, {"active": want_active}, {"cur": cur1, "active": flags1, "events": delta})
         res.bump("oracle", "allowed: " + ("nested" if nested else "plain") + (" hierarchical" if hier else " flat"))
     return f"ok {b.show()} res={','.join(results)}"
+
+
+def settle_pending(res, drv):
+    """A handler that raises leaves a *hierarchical* machine half-way in the unchanged engine too (finding c18-handler-raises).  A case is
+    filed under that class only if the model of the unchanged code shows the same inconsistency for it; otherwise it is a violation."""
+    todo = PENDING[:]
+    del PENDING[:]
+    if not todo:
+        return
+    outs = drv.run([line for _, line, _ in todo]) if drv.available else [None] * len(todo)
+    for (v, line, parents), ans in zip(todo, outs):
+        klass = v["class"]
+        if klass == "c18-handler-raises" and ans is not None:
+            ans = hlib.strip_branch(ans)
+            f = dict(w.split("=", 1) for w in ans.split()[1:] if "=" in w)
+            if "cur" in f and "active" in f:
+                mcur = int(f["cur"])
+                mflags = [c == "1" for c in f["active"]]
+                if mflags == [x in chain(parents, mcur) for x in range(len(parents))]:
+                    klass = "c18-engine"   # the unchanged engine keeps the flags exact here: this is not the recorded finding
+        SETTLED[klass] = SETTLED.get(klass, 0) + 1
+        res.bump("handler_raised_inconsistent", klass)
+        if SETTLED[klass] <= (4 if klass != "c18-engine" else 12):   # a recorded finding is demonstrated by a few cases, not by hundreds
+            res.violate(klass, v["what"], v["case"], v["expected"], v["actual"])
+
+
+SETTLED: dict = {}
 
 
 # ------------------------------------------------------------------------------------------------ baton scheduler
@@ -580,12 +637,16 @@ def named_run(sm, states, reqs):
     for tr in sm._transitions:
         tr.events.called._callbacks.insert(0, lambda _d, n=tr.name: log.append("c." + n))
     results = []
-    for r in reqs:
+    for i, r in enumerate(reqs):
         try:
             sm._perform_transition(r)
             results.append("ok")
-        except (WrongSourceStateError, UnknownTransitionError) as exc:
+        except RAISES as exc:
             results.append(errname(exc))
+        except RecursionError:
+            return f"ok diverges={i}"
+        if len(log) > 20000:
+            return f"ok diverges={i}"
     return f"ok cur={sm.current_state.name} active={'+'.join(x.name for x in states if x.active)} log={','.join(log)} res={','.join(results)}"
 
 
@@ -697,11 +758,103 @@ def shipped_vs_reference(res, rng, drv, big):
                         {"shipped": name, "differences": diffs})
 
 
+def shipped_raising_handlers(res, rng, drv, big):
+    """The three REAL shipped machines with one additional callback at every position (enter / leave of every state, called of every
+    transition) that raises a plain exception or requests a transition (often a refused one), under the single-transition histories of
+    section D.  Expected: the reference definition interpreted by the engine model with the same callback (`sm ref … H=`): the exception
+    propagates, the state is what the engine had reached.  Oracle: the states reporting active are the current state and its ancestors -
+    unless the model of the unchanged engine shows the same inconsistency (hierarchical machine: finding c18-handler-raises)."""
+    if not drv.available:
+        return
+    import collections
+    import secsgem.gem.control_state_machine as ctrl_mod
+    mk = shipped_instances()
+    ref_tables = drv.run([f"sm reftable {n}" for n in ("ConnSM", "CommSM", "CtrlSM")])
+    jobs = []
+    for name, ref_text in zip(("ConnSM", "CommSM", "CtrlSM"), ref_tables):
+        rstates, rorder, rtrans, rinit = parse_table(hlib.strip_branch(ref_text))
+        tnames = [t[0] for t in rtrans]
+        if name != "CtrlSM":
+            paths = {rinit: []}
+            dq = collections.deque([rinit])
+            while dq:
+                cur = dq.popleft()
+                for nm, srcs, dst in rtrans:
+                    if cur in srcs and dst not in paths:
+                        paths[dst] = paths[cur] + [nm]
+                        dq.append(dst)
+            runs = [(mk[name], f"sm ref {name}", None, [p_ + [t] for p_ in paths.values() for t in tnames])]
+        else:
+            runs = []
+            for initial, sub in rng.shuffle([(i_, s_) for i_ in ("EQUIPMENT_OFFLINE", "ATTEMPT_ONLINE", "HOST_OFFLINE", "ONLINE") for s_ in ("LOCAL", "REMOTE")])[: (8 if big else 2)]:
+                runs.append(((lambda i=initial, s_=sub: ctrl_mod.ControlStateMachine(i, s_)), f"sm ref CtrlSM {initial} {sub}", f"{initial}/{sub}",
+                             [["start"]] + [["start", t] for t in tnames]))
+        positions = [("e", i) for i in range(len(rorder))] + [("l", i) for i in range(len(rorder))] + [("c", t) for t in tnames]
+        for ctor, prefix, cfg, seqs in runs:
+            for kind, key in positions:
+                for req in ("!", rng.choice(tnames)):
+                    h = (f"c.{key}" if kind == "c" else f"{kind}{key}") + ":" + req
+                    for seq in seqs:
+                        jobs.append((name, ctor, f"{prefix} H={h} R=" + ",".join(seq), cfg, kind, key, req, seq, rstates, rorder))
+    outs = drv.run([j[2] for j in jobs])
+    reported = collections.Counter()
+    for (name, ctor, line, cfg, kind, key, req, seq, rstates, rorder), ref in zip(jobs, outs):
+        ref = hlib.strip_branch(ref)
+        sm = ctor()
+        _, states = introspect(sm)
+
+        done = []
+
+        def cb(_d, sm=sm, req=req, done=done):
+            if req == "!":
+                raise HandlerBoom()
+            sm._perform_transition(req)
+            done.append(1)
+        if kind == "c":
+            sm.transition(key).events.called.register(cb)
+        else:
+            getattr(states[key].events, "enter" if kind == "e" else "leave").register(cb)
+        impl = named_run(sm, states, seq)
+        res.count(("raise", line), nontrivial="UnknownTransition" in impl or "WrongSource" in impl)
+        res.traces_validated += 1
+        res.bump("shipped_raising", f"{name}: " + ("plain exception" if req == "!" else "nested request") + f" in {'enter' if kind == 'e' else 'leave' if kind == 'l' else 'called'} handler")
+        if "diverges" in impl or "diverges" in ref:
+            continue
+        hdesc = f"{'enter' if kind == 'e' else 'leave' if kind == 'l' else 'called'} handler of {rorder[key] if kind != 'c' else key} " + \
+            ("raises an exception" if req == "!" else f"requests {req}")
+        case = {"shipped": name, "config": cfg, "handler": line.split(" H=")[1].split(" ")[0], "handler_text": hdesc, "requests": seq}
+        if impl != ref:
+            res.disagree(f"{name} with a raising handler vs the reference definition interpreted by Model.SM", case, ref[:300], impl[:300])
+        # oracle: active = current + ancestors
+        def consistent(ans):
+            f = dict(w.split("=", 1) for w in ans.split()[1:] if "=" in w)
+            want, st = [], f["cur"]
+            while st is not None:
+                want.append(st)
+                st = rstates.get(st)
+            return sorted(want) == sorted(x for x in f["active"].split("+") if x), f
+        if kind == "l" and req != "!":
+            continue   # a leave handler that requests a transition is not covered by the property (a leave handler that raises is)
+        ok_i, fi = consistent(impl)
+        if not ok_i:
+            ok_m, _ = consistent(ref)
+            hier = any(v is not None for v in rstates.values())
+            known = "c18-nested-hier" if done else "c18-handler-raises"   # a nested request was performed / an exception left the handler
+            klass = known if (hier and not ok_m) else "c18-engine"
+            reported[(name, klass)] += 1
+            if reported[(name, klass)] <= 2:
+                res.violate(klass, f"{name}: {hdesc}; after [{', '.join(seq)}] the machine is in {fi['cur']} but the states reporting active are {{{fi['active']}}}",
+                            case, "active = current state and its ancestors", impl[:300])
+
+
 # ------------------------------------------------------------------------------------------------ main
 WITNESS_CHILD = {"parents": [None, 0, None], "trans": [("go", [2], 1), ("back", [1], 2)], "handlers": [("e", 1, False, ["back"])],
                  "init": 2, "reqs": ["go"]}
 WITNESS_PARENT = {"parents": [None, 0, 1, None], "trans": [("go", [3], 2), ("back", [2], 3)], "handlers": [("e", 1, False, ["back"])],
                   "init": 3, "reqs": ["go"]}
+# a handler that raises while a hierarchical machine is being entered from outside the parent: the parent is never entered
+WITNESS_RAISE = {"parents": [None, 0, None], "trans": [("go", [2], 1), ("back", [1], 2)], "handlers": [("e", 1, False, ["!"])],
+                 "init": 2, "reqs": ["go"]}
 CONN = {"parents": [None, None, 1, 1], "trans": [("connect", [0], 2), ("disconnect", [2, 3], 0), ("select", [2], 3), ("deselect", [3], 2),
                                                   ("timeoutT7", [2], 0)], "handlers": [], "init": 2, "reqs": []}
 # equally named sub-states below different parents: A ⊃ IDLE(2), B ⊃ IDLE(3); the engine must go by the State object, not by its name
@@ -767,9 +920,30 @@ def main():
                         sm = shipped_instances()[name]()
                         line = f"sm ref {name} R=" + ",".join(seq)
                     _, states_ = introspect(sm)
+                    if c.get("handler"):
+                        hk, hreq = c["handler"].split(":")
+                        line = line.replace(" R=", f" H={c['handler']} R=")
+
+                        def cb(_d, sm=sm, hreq=hreq):
+                            if hreq == "!":
+                                raise HandlerBoom()
+                            sm._perform_transition(hreq)
+                        if hk[0] == "c":
+                            sm.transition(hk[2:]).events.called.register(cb)
+                        else:
+                            getattr(states_[int(hk[1:])].events, "enter" if hk[0] == "e" else "leave").register(cb)
                     impl = named_run(sm, states_, seq)
                     ref = hlib.strip_branch(drv.run([line])[0])
-                    if impl != ref:
+                    if c.get("handler"):
+                        par = parse_table(hlib.strip_branch(drv.run([f"sm reftable {name}"])[0]))[0]
+                        fi = dict(w.split("=", 1) for w in impl.split()[1:] if "=" in w)
+                        want, st_ = [], fi.get("cur")
+                        while st_ is not None:
+                            want.append(st_)
+                            st_ = par.get(st_)
+                        if sorted(want) != sorted(x for x in fi.get("active", "").split("+") if x):
+                            res.violate("c18-engine", f"{name}: {c.get('handler_text')}; active states {fi.get('active')} in {fi.get('cur')}", c, None, impl[:300])
+                    elif impl != ref:
                         res.violate("c18-shipped-definition", f"{name}: " + describe_difference(seq, impl, ref), c, ref[:400], impl[:400])
                     res.count(("replay", line))
                 continue
@@ -786,6 +960,7 @@ def main():
                 d = parse_machine(c["machine"], c.get("requests") or [])
                 d["names"] = c.get("state_names")
                 run_case(res, d)
+                settle_pending(res, drv)
             res.count(("replay", c["machine"]))
 
         res.dump(a.out)
@@ -808,15 +983,18 @@ def main():
         res.bump("depth", max(depth(d["parents"], s) for s in range(len(d["parents"]))))
         res.bump("handler_entries", len(d["handlers"]))
     hlib.compare_batch(res, drv, "StateMachine._perform_transition / State.enter / State.leave vs Model.SM.perform", cases, lines, answers)
+    settle_pending(res, drv)
 
     # ------------------------------------------------------------ B. the two recorded defect classes, demonstrated deterministically
-    for nm, w, want in (("child-enter-handler", WITNESS_CHILD, "cur=2 active=101"), ("parent-enter-handler", WITNESS_PARENT, "cur=3 active=1001")):
-        before = len(res.violations)
+    for nm, w, want in (("nested-hier child-enter-handler", WITNESS_CHILD, "cur=2 active=101"), ("nested-hier parent-enter-handler", WITNESS_PARENT, "cur=3 active=1001"),
+                        ("handler-raises child-enter-handler", WITNESS_RAISE, "cur=1 active=010")):
+        before = len(res.violations) + sum(SETTLED.values())
         ans = run_case(res, w)
+        settle_pending(res, drv)
         res.count(("witness", nm), sample={"witness": nm, "impl": ans})
         hlib.compare_batch(res, drv, f"witness {nm}", [w["reqs"]], [f"sm run {fmt_machine(w)} R=go"], [ans])
-        res.bump("witness", f"nested-hier {nm}: " + ("reproduced" if len(res.violations) > before else "not reproduced (repaired?)"))
-        if want not in ans and len(res.violations) == before:
+        res.bump("witness", f"{nm}: " + ("reproduced" if len(res.violations) + sum(SETTLED.values()) > before else "not reproduced (repaired?)"))
+        if want not in ans and len(res.violations) + sum(SETTLED.values()) == before:
             res.notes.append(f"witness {nm}: engine behaves differently from both the recorded defect and its absence: {ans}")
 
     labels, missing = line_labels()
@@ -910,6 +1088,11 @@ def main():
 
     # ------------------------------------------------------------ D. the shipped definitions against the reference definitions
     shipped_vs_reference(res, rng, drv, big)
+
+    # ------------------------------------------------------------ E. the shipped machines with a raising callback at every position
+    t_e = time.time()
+    shipped_raising_handlers(res, rng, drv, big)
+    res.notes.append(f"section E (raising handlers on the shipped machines): {time.time() - t_e:.1f}s")
 
     res.dump(a.out)
     os._exit(0)
